@@ -22,7 +22,7 @@ RULE = (
     "different kind (or a different instance) is selected. Distinct = SHA-1 of the case."
 )
 BUDGET = {"quick": {"examples": 150, "shards": 4}, "thorough": {"fuzz_runs": 3000, "examples": 2000, "shards": 16}}
-EXPECTED_LABELS = ("step_fail", "el:init", "el:step", "el:init+step", "el:default", "el:explicit", "use:name", "use:bad-name", "use:spy", "use:real", "use:same-class-instance", "step:default", "step:explicit",
+EXPECTED_LABELS = ("use:other-thread", "step_fail", "el:init", "el:step", "el:init+step", "el:default", "el:explicit", "use:name", "use:bad-name", "use:spy", "use:real", "use:same-class-instance", "step:default", "step:explicit",
                    "explicit-differs-from-selected", "pair:numpy/SX", "pair:SX/numpy", "pair:MX/numpy", "pair:numpy/MX", "pair:SX/MX",
                    "interior-ramp", "delta", "merge", "bifurcation", "dest:cong", "origin:main")
 ASSUMPTIONS = ["a spy delegates every primitive unchanged; engine-created variables are used for the steps"]
@@ -93,8 +93,10 @@ def cases(draw):
             ops.append(["use_name", "casadi", draw(st.sampled_from(["SX", "MX"]))])
         elif k == 2:
             ops.append(["use_name", draw(st.sampled_from(BAD)), None])
-        elif k in (3, 4):
+        elif k == 3:
             ops.append(["use_spy", draw(st.integers(0, 2))])
+        elif k == 4:
+            ops.append(draw(st.sampled_from([["use_spy", draw(st.integers(0, 2))], ["use_spy_thread", draw(st.integers(0, 2))]])))
         elif k == 5:
             ops.append(["use_real", draw(st.sampled_from(KINDS))])
         elif k == 6:
@@ -189,7 +191,25 @@ def check_case(case, ctx):
                         ctx.fail("bad-name:accepted", f"{what}: unknown engine name {name!r} was accepted and returned {outcome[1]!r}")
                     elif outcome:
                         ctx.fail(f"bad-name:wrong-error:{type(outcome[1]).__name__}", f"{what}: unknown engine name {name!r} raised {type(outcome[1]).__name__}: {outcome[1]}")
-            elif op[0] in ("use_spy", "use_real"):
+            elif op[0] in ("use_spy", "use_real", "use_spy_thread"):
+                if op[0] == "use_spy_thread":
+                    # the selection is package-wide: an engine selected from another thread is the current one
+                    import threading
+
+                    inst = spies[op[1]]
+                    box = {}
+                    t = threading.Thread(target=lambda: box.update(r=engines.use(inst)))
+                    t.start()
+                    t.join()
+                    ctx.label("use:other-thread")
+                    if box.get("r") is not inst:
+                        ctx.fail("use-instance:return", f"{what}: use(instance) in a thread returned {box.get('r')!r}")
+                    model, model_kind = inst, kind_of_engine(inst)
+                    cur = engines.get_current_engine()
+                    if cur is not model or sym_metanet.engine is not model:
+                        ctx.fail("selection:after:use-in-thread", f"{what}: current engine is {cur!r}, expected {model!r} selected from another thread")
+                        model, model_kind = cur, kind_of_engine(cur)
+                    continue
                 if op[0] == "use_spy":
                     inst = spies[op[1]]
                     ctx.label("use:spy")
